@@ -203,9 +203,10 @@ class ListProxy(_SliceNormalizerMixIn, list):
 
     @inheritdoc
     def insert(self, index, item):
+        length = len(self)
         if index < 0:
-            index = len(self) + index
-        self._parent.insert(self._start + index, item)
+            index = max(length + index, 0)
+        self._parent.insert(self._start + min(index, length), item)
 
     @inheritdoc
     def pop(self, index=None):
